@@ -2,6 +2,7 @@ SPECIFICATION Spec
 CONSTANTS
   N = 5
   Mode = "average"
+  Overlap = FALSE
   Vals = {1, 2}
 INVARIANTS
   SizesAddUp
